@@ -266,9 +266,9 @@ fn c23_wrapper(sample_in_b: bool) {
     core::mem::forget(r);
 }
 
-// @check props=C23 tier=thorough known=KF-C23-1 timeout=2400
+// @check props=C23 tier=quick known=KF-C23-1
 // @desc mirrored read_next_instance(previous = none) end to end: instance A (smaller handle) has no stored samples, instance B has one matching sample: the call must return B's sample (expected to fail with NoData: KF-C23-1)
-// @bounds 2 instances in any storage order (handles with 2 symbolic bytes, symbolic states), 1 stored sample (any kind / sample state) of the larger instance, masks = the singleton masks matching it, max_samples 1; unwind 3
+// @bounds 2 instances in any storage order (handles with 2 symbolic bytes, symbolic states), 1 stored sample (any kind / sample state) of the larger instance, masks = the singleton masks matching it, max_samples 1; unwind 3, the loops over the collection being built capped at 2 iterations
 // @assume trigger KF-C23-1 (the first instance has no matching samples, a later one has)
 // @assume stub: InstanceHandle == / cmp / partial_cmp are replaced by the equivalent loop-free 128-bit comparisons (support_reader2::ih_eq, ih_cmp, ih_partial_cmp; equivalence proved over all inputs by c20_stub_equivalence)
 // @assume the wrapper UserDefinedDataReader::read_next_instance is mirrored (source guard pins its text)
@@ -284,9 +284,9 @@ fn c23_wrapper_skips__known() {
     c23_wrapper(true);
 }
 
-// @check props=C23 tier=thorough timeout=2400
+// @check props=C23 tier=quick
 // @desc mirrored read_next_instance(previous = none) end to end: the instance with the smaller handle has one matching sample, the other instance has none: the call returns exactly that sample
-// @bounds 2 instances in any storage order (handles with 2 symbolic bytes, symbolic states), 1 stored sample (any kind / sample state) of the smaller instance, masks = the singleton masks matching it, max_samples 1; unwind 3
+// @bounds 2 instances in any storage order (handles with 2 symbolic bytes, symbolic states), 1 stored sample (any kind / sample state) of the smaller instance, masks = the singleton masks matching it, max_samples 1; unwind 3, the loops over the collection being built capped at 2 iterations
 // @assume negation of trigger KF-C23-1 (the first instance has matching samples)
 // @assume stub: InstanceHandle == / cmp / partial_cmp are replaced by the equivalent loop-free 128-bit comparisons (support_reader2::ih_eq, ih_cmp, ih_partial_cmp; equivalence proved over all inputs by c20_stub_equivalence)
 // @assume the wrapper UserDefinedDataReader::read_next_instance is mirrored (source guard pins its text)
